@@ -62,21 +62,33 @@ theorem memoryGasCost_work {len last w g l : Nat} (hlen : len % 32 = 0) (hlast :
     have : max len (w * 32) = len := by omega
     rw [this]; exact ⟨by omega, hlast⟩
   · rw [if_neg h0] at h
-    split at h
-    · cases h
-    · rw [toWordSize_words hw] at h
+    by_cases hcap : w * 32 > 0x1FFFFFFFE0
+    · rw [if_pos hcap] at h; cases h
+    · rw [if_neg hcap] at h
+      rw [toWordSize_words hw] at h
       dsimp only at h
       by_cases hg : w * 32 > len
       · rw [if_pos hg] at h
         cases h
         have hmax : max len (w * 32) = w * 32 := by omega
         rw [hmax]
+        have hU := U64_eq
         have hle : len / 32 ≤ w := by omega
         have := memFee_mono hle
         refine ⟨?_, by congr 1; omega⟩
         rw [hlast]
         have e : (w * 32 - len) / 32 = w - len / 32 := by omega
-        rw [e]; omega
+        rw [e]
+        -- the fee fits 64 bits (w < 2^59), so the uint64 subtraction is the exact difference
+        have hwb : w ≤ 4294967296 := by omega
+        have hfw : memFee w < U64 := by
+          unfold memFee
+          have : w * w ≤ 4294967296 * 4294967296 := Nat.mul_le_mul hwb hwb
+          omega
+        have e1 : memFee w % U64 = memFee w := Nat.mod_eq_of_lt hfw
+        have e2 : memFee (len / 32) % U64 = memFee (len / 32) := Nat.mod_eq_of_lt (by omega)
+        rw [e1, e2, hU]
+        omega
       · rw [if_neg hg] at h
         cases h
         have hmax : max len (w * 32) = len := by omega
